@@ -773,4 +773,93 @@ Proof.
   - eapply Hcap; eauto.
 Qed.
 
+
+(** * Concurrency: a request that is not waiting for the backend completes by steps of the
+      server alone (its own and those of the current holder of sendMu), whatever the other
+      requests are blocked on *)
+Lemma run_snoc ls l s s1 s2 : run inp ls s = Some s1 -> exec inp l s1 = Some s2 -> run inp (ls ++ [l]) s = Some s2.
+Proof. intros H1 H2. rewrite (run_app _ _ _ _ H1). cbn [run]. now rewrite H2. Qed.
+
+Lemma run_Inv ls s s' : Inv s -> run inp ls s = Some s' -> Inv s'.
+Proof.
+  revert s. induction ls as [|l ls IH]; simpl; intros s I H; [now injection H as <-|].
+  destruct (exec inp l s) as [s1|] eqn:He; [|discriminate]. eapply IH; [eapply Inv_step; eauto|exact H].
+Qed.
+
+Lemma finish_send n : forall s h r k, Inv s -> pc s h = RSend r k -> S (r_extra r) - k = n ->
+  exists ls s', forallb progress_label ls = true /\ run inp ls s = Some s' /\
+    pc s' h = RDone r /\ sendmu s' = None /\ (forall j, j <> h -> pc s' j = pc s j).
+Proof.
+  induction n as [|n IH]; intros s h r k I Hp Hn; destruct (I_send1 _ I _ _ _ Hp) as [_ Hk].
+  - assert (He : Nat.eqb k (S (r_extra r)) = true) by (apply Nat.eqb_eq; lia).
+    exists [LUnlock h]. eexists. split; [reflexivity|]. split; [cbn [run exec]; rewrite Hp, He; reflexivity|].
+    cbn [pc sendmu]. split; [now rewrite upd_same|]. split; [reflexivity|]. intros j Hj. now rewrite upd_other.
+  - assert (Hl : Nat.leb k (r_extra r) = true) by (apply Nat.leb_le; lia).
+    destruct (exec inp (LChunk h) s) as [s1|] eqn:He; [|cbn [exec] in He; rewrite Hp, Hl in He; discriminate].
+    assert (I1 := Inv_step _ _ _ I He).
+    cbn [exec] in He. rewrite Hp, Hl in He. injection He as He.
+    assert (Hp1 : pc s1 h = RSend r (S k)) by (subst s1; cbn [pc]; now rewrite upd_same).
+    destruct (IH s1 h r (S k) I1 Hp1) as (ls & s' & H1 & H2 & H3 & H4 & H5); [lia|].
+    exists (LChunk h :: ls), s'. split; [exact H1|]. split.
+    + cbn [run exec]. rewrite Hp, Hl. subst s1. exact H2.
+    + split; [exact H3|]. split; [exact H4|]. intros j Hj. rewrite (H5 j Hj). subst s1. cbn [pc]. now rewrite upd_other.
+Qed.
+
+Lemma ret_completes s i r : Inv s -> pc s i = RRet r ->
+  exists ls s', forallb progress_label ls = true /\ run inp ls s = Some s' /\ pc s' i = RDone r.
+Proof.
+  intros I Hp.
+  destruct (ClearTag_never_panics s i r I Hp) as (s1 & He1).
+  assert (I1 := Inv_step _ _ _ I He1).
+  assert (Hp1 : pc s1 i = RClr r /\ sendmu s1 = sendmu s).
+  { cbn [exec] in He1. rewrite Hp in He1. destruct (nth_error inp i) as [[|?|t k]|]; try discriminate.
+    destruct (tags s t); [|discriminate]. injection He1 as <-. cbn [pc sendmu]. now rewrite upd_same. }
+  destruct Hp1 as [Hp1 Hs1].
+  (* make sendMu free *)
+  assert (Hfree : exists ls2 s2, forallb progress_label ls2 = true /\ run inp ls2 s1 = Some s2 /\ pc s2 i = RClr r /\ sendmu s2 = None).
+  { destruct (sendmu s1) as [h|] eqn:Hm.
+    - destruct (I_send2 _ I1 _ Hm) as (r' & k' & Hh).
+      assert (Hhi : i <> h) by (intros ->; congruence).
+      destruct (finish_send _ s1 h r' k' I1 Hh eq_refl) as (ls & s2 & H1 & H2 & _ & H4 & H5).
+      exists ls, s2. split; [exact H1|]. split; [exact H2|]. split; [now rewrite (H5 i Hhi)|exact H4].
+    - exists [], s1. repeat split; auto. }
+  destruct Hfree as (ls2 & s2 & Hl2 & Hr2 & Hp2 & Hm2).
+  assert (I2 := run_Inv _ _ _ I1 Hr2).
+  destruct (exec inp (LLock i) s2) as [s3|] eqn:He3; [|cbn [exec] in He3; rewrite Hp2, Hm2 in He3; discriminate].
+  assert (I3 := Inv_step _ _ _ I2 He3).
+  assert (Hp3 : pc s3 i = RSend r 0).
+  { cbn [exec] in He3. rewrite Hp2, Hm2 in He3. injection He3 as <-. cbn [pc]. now rewrite upd_same. }
+  destruct (finish_send _ s3 i r 0 I3 Hp3 eq_refl) as (ls4 & s4 & Hl4 & Hr4 & Hp4 & _ & _).
+  exists (LClear i :: ls2 ++ LLock i :: ls4), s4. split.
+  - cbn [forallb progress_label]. rewrite forallb_app. cbn [forallb progress_label]. now rewrite Hl2, Hl4.
+  - split; [|exact Hp4]. cbn [run]. rewrite He1. rewrite (run_app _ (LLock i :: ls4) _ _ Hr2). cbn [run]. now rewrite He3.
+Qed.
+
+Lemma op_completes s i w t r : Inv s -> pc s i = RRun w -> nth_error inp i = Some (FReq t KOp) ->
+  exists ls s', forallb progress_label ls = true /\ run inp ls s = Some s' /\ pc s' i = RDone r.
+Proof.
+  intros I Hp Hf.
+  destruct (exec inp (LReturn i r) s) as [s1|] eqn:He; [|cbn [exec] in He; rewrite Hp, Hf in He; discriminate].
+  assert (I1 := Inv_step _ _ _ I He).
+  assert (Hp1 : pc s1 i = RRet r).
+  { cbn [exec] in He. rewrite Hp, Hf in He. injection He as <-. cbn [set_pc pc]. now rewrite upd_same. }
+  destruct (ret_completes s1 i r I1 Hp1) as (ls & s' & H1 & H2 & H3).
+  exists (LReturn i r :: ls), s'. split; [exact H1|]. split; [cbn [run]; now rewrite He|exact H3].
+Qed.
+
+Lemma flush_completes s i w t old : Inv s -> pc s i = RRun w -> nth_error inp i = Some (FReq t (KFlush old)) ->
+  (old = t \/ forall j k, j < i -> nth_error inp j = Some (FReq old k) -> running (pc s j) = false) ->
+  exists ls s', forallb progress_label ls = true /\ run inp ls s = Some s' /\ pc s' i = RDone rflush_reply.
+Proof.
+  intros I Hp Hf Hc.
+  destruct (flush_at_once s i w t old I Hp Hf Hc) as (s1 & He).
+  assert (I1 := Inv_step _ _ _ I He).
+  assert (Hp1 : pc s1 i = RRet rflush_reply).
+  { cbn [exec] in He. rewrite Hp, Hf in He.
+    destruct (match w with Some c => closed s c | None => true end); [|discriminate].
+    injection He as <-. cbn [set_pc pc]. now rewrite upd_same. }
+  destruct (ret_completes s1 i _ I1 Hp1) as (ls & s' & H1 & H2 & H3).
+  exists (LPass i :: ls), s'. split; [exact H1|]. split; [cbn [run]; now rewrite He|exact H3].
+Qed.
+
 End WithInput.
